@@ -234,9 +234,19 @@ func cmdCheck(args []string) {
 			unsup[c.name+": "+u] = true
 		}
 	}
+	genS := time.Since(t0).Seconds() - loadS
 	tSolve := time.Now()
 	dischargeAll(all, scratch, timeout, 14, thorough)
 	solveS := time.Since(tSolve).Seconds()
+	if os.Getenv("GOVC_TIMING") != "" {
+		nc := 0
+		for _, o := range all {
+			if o.Expect == "sat" {
+				nc++
+			}
+		}
+		fmt.Fprintf(os.Stderr, "timing: load %.1fs generate %.1fs solve %.1fs (%d instances, %d covers)\n", loadS, genS, solveS, len(all), nc)
+	}
 
 	// aggregate by obligation name
 	byName := map[string]*oblSummary{}
@@ -272,14 +282,14 @@ func cmdCheck(args []string) {
 				sm.Status = "refuted"
 				sm.Model = o.Model
 				sm.Solver = o.Solver
-				sm.Script = o.Script
+				sm.Script = o.fullScript()
 				sm.Pos = o.Pos
 			}
 		default:
 			if sm.Status == "discharged" {
 				sm.Status = "undecided"
 				sm.Detail = o.Status + " " + o.Model
-				sm.Script = o.Script
+				sm.Script = o.fullScript()
 			}
 		}
 	}
